@@ -121,6 +121,8 @@ def _project(rnd, nr, ar, with_sub=True):
     tn = np.array([[rnd.choice(pool) for _ in range(ar)] for _ in range(nr)], dtype=str).reshape(nr, ar)
     td = np.array([[rnd.choice(dpool) for _ in range(ar)] for _ in range(nr)], dtype=float).reshape(nr, ar)
     spool = rnd.sample(pool, 3)
+    if rnd.random() < 0.3:
+        spool = [spool[0], spool[0] + " ", " " + spool[0]]      # names that differ only by surrounding whitespace are different names
     sn = np.array([rnd.choice(spool) for _ in range(nr)], dtype=str)
     pn = np.array([rnd.choice(spool + ["plate"]) for _ in range(nr)], dtype=str)
     st, scr = _screen(tn, td, sn, pn, ctl)
